@@ -1415,6 +1415,48 @@ pub fn tokens(doc: &[u8]) -> Vec<(usize, usize)> {
     out
 }
 
+/// byte ranges of the values of a document: non-blank text runs (attrs = false) or quoted attribute values (attrs = true)
+pub fn value_spans(doc: &[u8], attrs: bool) -> Vec<(usize, usize)> {
+    let mut out = Vec::new();
+    let mut i = 0;
+    while i < doc.len() {
+        if doc[i] == b'<' {
+            let st = i;
+            while i < doc.len() && doc[i] != b'>' {
+                i += 1;
+            }
+            if attrs && !doc[st..].starts_with(b"<?") && !doc[st..].starts_with(b"<!") {
+                let mut j = st;
+                while j < i {
+                    if doc[j] == b'=' && j + 1 < i && (doc[j + 1] == b'"' || doc[j + 1] == b'\'') {
+                        let q = doc[j + 1];
+                        let vs = j + 2;
+                        let mut e = vs;
+                        while e < i && doc[e] != q {
+                            e += 1;
+                        }
+                        if e < i {
+                            out.push((vs, e));
+                        }
+                        j = e;
+                    }
+                    j += 1;
+                }
+            }
+            i += 1;
+        } else {
+            let st = i;
+            while i < doc.len() && doc[i] != b'<' {
+                i += 1;
+            }
+            if !attrs && doc[st..i].iter().any(|c| !c.is_ascii_whitespace()) {
+                out.push((st, i));
+            }
+        }
+    }
+    out
+}
+
 pub fn mutate(rng: &mut SplitMix64, doc: &[u8]) -> (Vec<u8>, &'static str) {
     let toks = tokens(doc);
     if toks.is_empty() {
@@ -1732,6 +1774,50 @@ pub fn main(args: &[String]) {
         }
         write_case(&mut fmut, &m, &format!("mut:{}", op));
         g.stat(&format!("mutant.{}", op));
+    }
+    // control / non-ASCII bytes inside values together with ASCII blanks: every shape  ws* c ws*  and  c alone  for
+    // c in {0x0B, 0x0C, 0x00, 0x1C, 0x1F, 0x7F, 0x80, 0x85, 0xA0, 0xFF}, ws in {SP, TAB, CR, LF}, as element text and as attribute
+    // value (round-robin over byte x shape x blank; the trimming / classification code sees each byte next to each kind of blank)
+    {
+        const CB: &[u8] = &[0x0B, 0x0C, 0x00, 0x1C, 0x1F, 0x7F, 0x80, 0x85, 0xA0, 0xFF];
+        const WS: &[u8] = &[b' ', b'\t', b'\r', b'\n'];
+        let small: Vec<&Vec<u8>> = valid_docs.iter().filter(|d| d.len() < 2500).collect();
+        let reps = if thorough { 6 } else { 1 };
+        let mut k = 0usize;
+        for _ in 0..reps {
+            for c in CB {
+                for shape in 0..7 {
+                    for w in WS {
+                        for target in 0..2 {
+                            if small.is_empty() {
+                                continue;
+                            }
+                            let d = small[(k * 11) % small.len()];
+                            k += 1;
+                            let spans = value_spans(d, target == 1);
+                            if spans.is_empty() {
+                                continue;
+                            }
+                            let (a, b) = spans[mrng.below(spans.len() as u64) as usize];
+                            let v: Vec<u8> = match shape {
+                                0 => vec![*c],
+                                1 => vec![*w, *c],
+                                2 => vec![*c, *w],
+                                3 => vec![*w, *c, *w],
+                                4 => vec![*w, *w, *c],
+                                5 => vec![*c, *w, b' '],
+                                _ => vec![b' ', *w, *c, *w, b' '],
+                            };
+                            let mut m = d[..a].to_vec();
+                            m.extend_from_slice(&v);
+                            m.extend_from_slice(&d[b..]);
+                            write_case(&mut fmut, &m, if target == 1 { "mut:ctrl-byte-in-attribute-value" } else { "mut:ctrl-byte-in-text-value" });
+                            g.stat(if target == 1 { "mutant.ctrl-byte-in-attribute-value" } else { "mutant.ctrl-byte-in-text-value" });
+                        }
+                    }
+                }
+            }
+        }
     }
     g.stats.insert("distinct-element-types-generated".into(), g.types_seen.len() as u64);
     for (k, v) in g.stats.iter() {
